@@ -454,7 +454,8 @@ pub fn dist_corners() -> Vec<(String, DistType)> {
     }
     let next_up = |x: f64| f64::from_bits(x.to_bits() + 1);
     let next_down = |x: f64| f64::from_bits(x.to_bits() - 1);
-    for (n, t) in [(0u64, "0"), (1, "1"), (1_000_000_000, "1e9"), (1_000_000_001, "1e9+1"), (u64::MAX, "max")] {
+    for (n, t) in [(0u64, "0"), (1, "1"), (1_000_000_000, "1e9"), (1_000_000_001, "1e9+1"), (u64::MAX, "max"),
+                   (1u64 << 32, "2^32"), ((1u64 << 32) + 5, "2^32+5"), (0xFFFF_FFFF_0000_0000, "hi32"), (1u64 << 31, "2^31"), (1u64 << 63, "2^63")] {
         for (p, pt) in [(0.0, "0"), (1e-9, "min"), (0.5, "half"), (1.0, "1"), (0.6666666666666666, "2/3")] {
             v.push((format!("binomial-trials-{t}-p-{pt}"), DistType::Binomial { trials: n, probability: p }));
         }
@@ -472,6 +473,9 @@ pub fn dist_corners() -> Vec<(String, DistType)> {
     v.push(("uniform-top-ulp".into(), DistType::Uniform { low: next_down(f64::MAX), high: f64::MAX }));
     v.push(("uniform-subnormal".into(), DistType::Uniform { low: 0.0, high: 5e-324 }));
     v.push(("uniform-inverted".into(), DistType::Uniform { low: 2.0, high: 1.0 }));
+    // zeros of opposite sign are equal as numbers (a constant distribution), not as bit patterns or in total order
+    v.push(("uniform-negzero-zero".into(), DistType::Uniform { low: -0.0, high: 0.0 }));
+    v.push(("uniform-zero-negzero".into(), DistType::Uniform { low: 0.0, high: -0.0 }));
     v.push(("uniform-unit".into(), DistType::Uniform { low: 0.0, high: 1.0 }));
     v.push(("gamma-shape-below-1".into(), DistType::Gamma { scale: 1.0, shape: next_down(1.0) }));
     v.push(("gamma-shape-above-1".into(), DistType::Gamma { scale: 1.0, shape: next_up(1.0) }));
